@@ -9,7 +9,7 @@ from typing import Awaitable, Callable, Union, cast
 
 from x690 import decode
 from x690.types import Integer, Null, ObjectIdentifier, OctetString, Sequence
-from x690.util import INDENT_STRING
+from x690.util import INDENT_STRING, get_value_slice
 
 import puresnmp.plugins.auth as auth
 import puresnmp.plugins.priv as priv
@@ -51,6 +51,33 @@ def reset_digest(message: Message) -> Message:
         security_parameters=bytes(neutral),
     )
     return output
+
+
+def reset_raw_digest(raw_message: bytes) -> bytes:
+    """
+    Replace the message-digest inside the bytes of a message *as received*
+    with zeroes (leaving every other byte untouched).
+
+    The digest of an incoming message must be verified over the bytes that
+    were sent. Decoding and re-encoding the message is not guaranteed to
+    reproduce them, because BER allows more than one way to encode a length.
+
+    :param raw_message: The bytes of a complete SNMPv3 message
+    :returns: The same bytes with msgAuthenticationParameters zeroed
+    """
+    pos = get_value_slice(raw_message, 0).bounds.start  # SNMPv3Message
+    for _ in range(2):  # skip msgVersion, msgGlobalData
+        pos = get_value_slice(raw_message, pos).next_value_index
+    pos = get_value_slice(raw_message, pos).bounds.start  # the OCTET STRING
+    pos = get_value_slice(raw_message, pos).bounds.start  # UsmSecurityParameters
+    for _ in range(4):  # skip engine-id, engine-boots, engine-time, user-name
+        pos = get_value_slice(raw_message, pos).next_value_index
+    digest = get_value_slice(raw_message, pos).bounds
+    return (
+        raw_message[: digest.start]
+        + b"\x00" * (digest.stop - digest.start)
+        + raw_message[digest.stop :]
+    )
 
 
 class USMError(SnmpError):
@@ -320,10 +347,13 @@ def verify_authentication(
         )
 
     auth_method = auth.create(credentials.auth.method)
-    without_digest = reset_digest(message)
+    if message.raw is not None:
+        without_digest = reset_raw_digest(message.raw)
+    else:
+        without_digest = bytes(reset_digest(message))
     is_authentic = auth_method.authenticate_incoming_message(
         credentials.auth.key,
-        bytes(without_digest),
+        without_digest,
         security_params.auth_params,
         security_params.authoritative_engine_id,
     )
